@@ -250,3 +250,60 @@ def c12_3(run):
     if not n:
         raise Inconclusive('vacuity')
     run.require_reached(*run.cur.reach)
+
+
+# ----------------------------------------------------------------------------------------------------------------- C12-4
+@obligation('C12', 'C12-4 BlobSubmitter::add_sequencer_block_to_next_submission / has_capacity: a block the batch has no room for is parked as THE pending block (never dropped), and no new block is accepted while one is parked')
+def c12_4(run):
+    def h_try_add(ctx):
+        blk = ctx.args[1]
+        a = ctx.ex.adts.lookup('TryAddError'); vi = {v['name']: i for i, v in enumerate(a['variants'])}
+        full = Obj('relayer::write::conversion::TryAddError'); full.discr = 'Full'
+        bx = M.make_box(blk); full.fields[('Full', 0)] = bx
+        other = Obj('relayer::write::conversion::TryAddError'); other.discr = 'OversizedBlock'
+        r, f_ = z3.Bool('try_add_ok'), z3.Bool('try_add_full')
+        ctx.st.log.append(('try_add', getattr(ctx.ex.deref_val(ctx.st, blk), 'lz', None)))
+        return [(r, ok(())), (z3.And(z3.Not(r), f_), (lambda s2: err(s2.tr(full)))), (z3.And(z3.Not(r), z3.Not(f_)), (lambda s2: err(s2.tr(other))))]
+    hooks = [(re.compile(r'NextSubmission::try_add$'), h_try_add), (re.compile(r'SequencerBlock::height$'), lambda ctx: [(None, z3.BitVec('block_height', 64))]),
+             (re.compile(r'(^|::)Height::value$'), lambda ctx: [(None, ctx.ex.deref_val(ctx.st, ctx.args[0]))])]
+    ex = loader.load(['astria-sequencer-relayer'], hooks=hooks, scalar_types={'tendermint::block::Height': 64, 'SequencerHeight': 64})
+    def fn(name):
+        c = [n for n in ex.fns if n.endswith('::' + name) and 'closure' not in n and (ex.impl_self(n) or (None, ''))[1] == 'BlobSubmitter']
+        if len(c) != 1:
+            raise Inconclusive(f'BlobSubmitter::{name} not found: {c}')
+        return c[0]
+    run.bound(try_add='NextSubmission::try_add is an oracle: Ok, Full(block handed back) or another error (decided in C12-1)', pending='no pending block before the call (the caller only adds when has_capacity() holds or right after take())')
+    seen = set()
+    blk = Obj('astria_core::sequencerblock::v1::SequencerBlock', kind='opaque'); blk.attrs['tag'] = 'new'
+    me = B.struct(ex, 'BlobSubmitter', pending_block=none())
+    st = ex.start(fn('add_sequencer_block_to_next_submission'), [B.cell(me), blk])
+    for i, p in enumerate(run.explore(ex, st, allow_havoc=(r'^Arguments::|fmt::',))):
+        if p.kind != 'return':
+            run.prove(f'no panic [path {i}]', p.pc, z3.BoolVal(False), detail=p.info); continue
+        me1 = ex.read(p, p.roots['args'][0].loc)
+        pend = ex.deref_val(p, B.fld(ex, p, me1, 'pending_block', 'Option<SequencerBlock>'))
+        res = p.result.discr; seen.add((res, pend.discr))
+        run.sample({'path': i, 'result': res, 'pending_after': pend.discr})
+        r, f_ = z3.Bool('try_add_ok'), z3.Bool('try_add_full')
+        if res == 'Ok':
+            parked = isinstance(pend.discr, str) and pend.discr == 'Some'
+            inner = ex.deref_val(p, pend.fields[('Some', 0)]) if parked else None
+            if isinstance(inner, Obj) and inner.kind == 'box':
+                inner = ex.deref_val(p, inner.fields[('in', 0)])
+            same_block = parked and isinstance(inner, Obj) and (inner.attrs.get('tag') == 'new' or inner.lz == blk.lz)
+            run.sample({'parked_value': repr(inner), 'attrs': dict(getattr(inner, 'attrs', {})) if isinstance(inner, Obj) else None})
+            run.prove(f'Ok => either the batch took the block (nothing parked) or the batch was full and exactly this block is parked [path {i}]', p.pc,
+                      z3.If(r, z3.BoolVal(not parked), z3.And(f_, z3.BoolVal(bool(same_block)))))
+        else:
+            run.prove(f'Err => try_add failed with an error other than Full; nothing parked [path {i}]', p.pc, z3.And(z3.Not(r), z3.Not(f_), z3.BoolVal(pend.discr == 'None')))
+    # has_capacity
+    for has in (False, True):
+        opt = some(Obj('astria_core::sequencerblock::v1::SequencerBlock', kind='opaque')) if has else none()
+        me = B.struct(ex, 'BlobSubmitter', pending_block=opt)
+        for i, p in enumerate(run.explore(ex, ex.start(fn('has_capacity'), [B.cell(me)]))):
+            if p.kind != 'return':
+                run.prove(f'has_capacity: no panic', p.pc, z3.BoolVal(False), detail=p.info); continue
+            run.prove(f'has_capacity() <=> no block is parked [pending {has}]', p.pc, p.result == z3.BoolVal(not has))
+    if not {('Ok', 'None'), ('Ok', 'Some')} <= seen:
+        raise Inconclusive(f'vacuity: {seen}')
+    run.require_reached(*run.cur.reach)
